@@ -433,6 +433,7 @@ class Stats:
         self.first = None
         self.fs_writes = self.fs_opens = self.clock_reads = 0
         self.op_counts = Counter()
+        self.aborts_configured = self.io_faults_configured = 0
 
     def nontrivial(self, rec):
         subj = {"C14": model.PUBLIC_OPS, "C12": ("canon", "serialize"), "C16": ("permute",)}[self.prop]
@@ -448,6 +449,10 @@ class Stats:
             self.probes[k] += c
         for o in rec["ops"]:
             self.op_counts[f"{o['op']}:{o['st']}"] += 1
+        for _, ops in model.spec_clients(spec):
+            for o in ops:
+                self.aborts_configured += "abort" in o
+                self.io_faults_configured += "io_fault" in o
         self.cls[rec["cls"]] += 1
         self.hs[rec["hashseed"]] += 1
         self.steps += rec["steps"]
